@@ -68,6 +68,9 @@ type caseLog struct {
 	Panic string `json:"panic,omitempty"`
 	// seq: an idle wait never saw level 0 within 10 s; the rest of the sequence was not run
 	Aborted bool `json:"aborted,omitempty"`
+	// the case did not finish within 30 s (e.g. a lock left held by a panicking call); Evs is then empty
+	Hung bool   `json:"hung,omitempty"`
+	Skip string `json:"skip,omitempty"`
 	// idle mode: quiescent observation
 	Touched  bool  `json:"touched,omitempty"`
 	FinalLvl int64 `json:"final_lvl,omitempty"`
@@ -76,6 +79,15 @@ type caseLog struct {
 }
 
 var hb *vf.Heartbeat
+
+// panics seen by case number, readable even when the case never finishes
+var panicNotes sync.Map
+
+func notePanic(no int, p any) string {
+	msg := fmt.Sprint(p)
+	panicNotes.LoadOrStore(no, msg)
+	return msg
+}
 
 func worker(args []string) {
 	b, err := os.ReadFile(args[0])
@@ -92,6 +104,7 @@ func worker(args []string) {
 	out := bufio.NewWriterSize(os.Stdout, 1<<20)
 	enc := json.NewEncoder(out)
 	var mu sync.Mutex
+	var hangs atomic.Int32
 	// Cases mostly sleep; a few run side by side.
 	sem := make(chan struct{}, 6)
 	var wg sync.WaitGroup
@@ -103,13 +116,29 @@ func worker(args []string) {
 			defer func() { <-sem }()
 			st := time.Now()
 			var lg caseLog
-			switch s.Mode {
-			case "seq", "cancel":
-				lg = runSeq(s)
-			case "lin":
-				lg = runLin(s)
-			default:
-				lg = runIdle(s)
+			if hangs.Load() >= 3 {
+				lg = caseLog{Skip: "skipped: three earlier cases of this worker already hung"}
+			} else {
+				done := make(chan caseLog, 1)
+				go func() {
+					switch s.Mode {
+					case "seq", "cancel":
+						done <- runSeq(s)
+					case "lin":
+						done <- runLin(s)
+					default:
+						done <- runIdle(s)
+					}
+				}()
+				select {
+				case lg = <-done:
+				case <-time.After(30 * time.Second):
+					hangs.Add(1)
+					lg = caseLog{Hung: true}
+					if m, ok := panicNotes.Load(s.No); ok {
+						lg.Panic = m.(string)
+					}
+				}
 			}
 			lg.No = s.No
 			lg.WallUS = time.Since(st).Microseconds()
@@ -140,11 +169,10 @@ func mkThrottler(s caseSpec) *throttler.Throttler {
 func runSeq(s caseSpec) (lg caseLog) {
 	defer func() {
 		if p := recover(); p != nil {
-			lg.Panic = fmt.Sprint(p)
+			lg.Panic = notePanic(s.No, p)
 		}
 	}()
 	th := mkThrottler(s)
-	defer th.Reset()
 	r := rand.New(rand.NewPCG(s.Seed, 1))
 	idle := time.Duration(s.IdleMS) * time.Millisecond
 	armed, needIdle := false, false
@@ -361,6 +389,7 @@ func runSeq(s caseSpec) (lg caseLog) {
 	if idle > 0 && armed && !aborted {
 		idleWait()
 	}
+	th.Reset() // stop the timer
 	return lg
 }
 
@@ -369,7 +398,6 @@ func runSeq(s caseSpec) (lg caseLog) {
 // is checked for linearizability against the level model.
 func runLin(s caseSpec) (lg caseLog) {
 	th := mkThrottler(s)
-	defer th.Reset()
 	var clk atomic.Int64
 	per := make([][]ev, s.G)
 	panics := make([]string, s.G)
@@ -381,7 +409,7 @@ func runLin(s caseSpec) (lg caseLog) {
 			var evs []ev
 			defer func() {
 				if p := recover(); p != nil {
-					panics[g] = fmt.Sprint(p)
+					panics[g] = notePanic(s.No, p)
 				}
 				per[g] = evs
 			}()
@@ -438,6 +466,7 @@ func runLin(s caseSpec) (lg caseLog) {
 	e.Lvl = int64(th.Level())
 	e.Post = clk.Add(1)
 	lg.Evs = append(lg.Evs, e)
+	th.Reset() // stop the (one hour) timer
 	return lg
 }
 
@@ -446,7 +475,6 @@ func runLin(s caseSpec) (lg caseLog) {
 // the level must be 0.
 func runIdle(s caseSpec) (lg caseLog) {
 	th := mkThrottler(s)
-	defer th.Reset()
 	idle := time.Duration(s.IdleMS) * time.Millisecond
 	per := make([][]ev, s.G)
 	panics := make([]string, s.G)
@@ -459,7 +487,7 @@ func runIdle(s caseSpec) (lg caseLog) {
 			var evs []ev
 			defer func() {
 				if p := recover(); p != nil {
-					panics[g] = fmt.Sprint(p)
+					panics[g] = notePanic(s.No, p)
 				}
 				per[g] = evs
 			}()
